@@ -28,8 +28,8 @@ ROOTS = {
     "gmm.set.weights": ("gmm:GMMMachine.weights.fset", {"weights": "1 [C]"}, True, (None,), None),
     "gmm.set.thresholds": ("gmm:GMMMachine.variance_thresholds.fset", {"threshold": "U2 [C,D]"}, True, (None,), None),
     "gmm.get.g_norms": ("gmm:GMMMachine.g_norms.fget", {}, True, (None,), "LOG U2d c2pi [C]"),
-    "gmm.fit": ("gmm:GMMMachine.fit", {"X": "U [N,D]"}, True, (False, True), None),
-    "gmm.init": ("gmm:GMMMachine.initialize_gaussians", {"data": "U [N,D]"}, True, (False, True), None),
+    "gmm.fit": ("gmm:GMMMachine.fit", {"X": "U eqv [N,D]"}, True, (False, True), None),
+    "gmm.init": ("gmm:GMMMachine.initialize_gaussians", {"data": "U eqv [N,D]"}, True, (False, True), None),
     "gmm.acc_stats": ("gmm:GMMMachine.acc_stats", {"X": "U [N,D]"}, True, (False,), None),
     # ---- k-means -------------------------------------------------------------------------------------
     "km.fit": ("kmeans:KMeansMachine.fit", {"X": "U eqv [N,D]"}, True, (False, True), None),
